@@ -856,4 +856,27 @@ def run(pid, tier):
 
 
 def replay(pid, path):
-    print("replay not implemented yet"); return 2
+    """re-run one recorded counterexample against the real code: E2 records are replayed in the instrumented binary in concrete mode and in a native build of the same
+    sources + harness; E1 records are replayed natively from the recorded nondet values. exit 1 (and a VIOLATION line) iff it reproduces."""
+    import e2, e2phase, hashlib
+    rec = json.load(open(path)); rp = rec.get("replay", {}); key = rec.get("key", {})
+    print("replaying", json.dumps(key)[:400])
+    chk = Check(pid, "quick")
+    if key.get("engine") == "E2" and rp.get("case") is not None and rp.get("values") is not None:
+        b = e2phase.get_build(chk, rp.get("prec", "d"), bool(rp.get("vendor")), bool(rp.get("idx64")), False)
+        hname = os.path.splitext(os.path.basename(rp["harness"]))[0] + "_rp"; exe = b.build_harness(rp["harness"], hname, rp.get("defs", ())); ne = b.build_native(rp["harness"], hname, rp.get("defs", ()))
+        vf = os.path.join(chk.scratch, "vals.txt"); open(vf, "w").write("".join("%s %s\n" % kv for kv in rp["values"].items()))
+        hit = False
+        for nm, x in (("instrumented-concrete", exe), ("native", ne)):
+            rc, err, recs = e2phase.concrete_run(x, rp["case"], vf)
+            r = any(q.get("k") in ("V", "C") and q.get("id") == key.get("assert_id") for q in recs) or rc in (-11, -6, 139, 134); hit = hit or r
+            print("%s: %s (rc=%s)" % (nm, "reproduced" if r else "not reproduced", rc))
+        if hit: print("VIOLATION property=%s replay=%s" % (pid, path))
+        return 1 if hit else 0
+    if key.get("engine") == "E1" and rp.get("sources"):
+        wd = os.path.join(chk.scratch, "e1rp"); os.makedirs(wd, exist_ok=True)
+        rep, out = e1.native_replay(wd, "rp", rp["sources"], rp.get("defs", []), rp.get("nondet_values") or [], stubs=())
+        print("native replay:", {True: "reproduced", False: "not reproduced", None: "build failed"}[rep], out[-400:])
+        if rep: print("VIOLATION property=%s replay=%s" % (pid, path))
+        return 1 if rep else 0
+    print("record has no replayable payload (path/monitor record): ", rec.get("what", "")[:300]); return 0
